@@ -12,6 +12,8 @@ import WV.Model.C01
 import WV.Model.C04
 import WV.Model.C02
 import WV.Model.C03
+import WV.Model.C16
+import WV.Model.Observer
 
 /-! Line-protocol driver over the executable models.  First stdin line names the model
     (`C12`, …); every following line is one operation; one output line per operation. -/
@@ -38,6 +40,8 @@ def dispatch (which : String) (lines : List String) : List String :=
   | "C04" => WV.C04.driver lines
   | "C02" => WV.C02.driver lines
   | "C03" => WV.C03.driver lines
+  | "C16" => WV.C16.driver lines
+  | "OBSERVER" => WV.Observer.driver lines
   | _ => ["unknown-model " ++ which]
 
 def main : IO Unit := do
